@@ -148,7 +148,7 @@ func RunLife(sc LifeScenario) (evs []Ev, inconclusive string) {
 	pc.OverflowConfig.BlockTimeout = 0
 	pc.WorkerConfig.SinkPoolSize = 2
 	pc.WorkerConfig.SinkWorkerCount = 2
-	if sc.Directed == "slowdrain" { // a deep queue of tasks for one slow asynchronous sink worker
+	if sc.Directed == "slowdrain" || sc.Directed == "stoptwice" { // a deep queue of tasks for one slow asynchronous sink worker
 		pc.WorkerConfig.SinkPoolSize = 2048
 		pc.WorkerConfig.SinkWorkerCount = 1
 	}
@@ -231,7 +231,7 @@ func RunLife(sc LifeScenario) (evs []Ev, inconclusive string) {
 	if sc.Directed == "syncstop" {
 		s.AddSyncSink(mkSink("s1", "park"))
 		s.AddSyncSink(mkSink("s2", "fast"))
-	} else if sc.Directed == "slowdrain" {
+	} else if sc.Directed == "slowdrain" || sc.Directed == "stoptwice" {
 		s.AddSink(mkSink("a1", "slow5"))
 	} else if sc.Directed == "rowpanic" {
 		s.AddSyncSink(mkSink("s1", "fast"))
@@ -432,6 +432,19 @@ func RunLife(sc LifeScenario) (evs []Ev, inconclusive string) {
 		time.Sleep(100 * time.Millisecond)
 		stop(1)
 		time.Sleep(400 * time.Millisecond)
+	case "stoptwice":
+		// two Stop calls at (almost) the same time while the asynchronous sink still has a backlog: EACH of them is a barrier -
+		// whichever returns, no sink invocation begins after it
+		for i := 1; i <= 300; i++ {
+			guard("Emit", func() { s.Emit(row(i)) })
+		}
+		time.Sleep(20 * time.Millisecond)
+		first := make(chan struct{})
+		go func() { stop(1); close(first) }()
+		time.Sleep(time.Duration(sc.Ops%7) * time.Millisecond) // 0 .. 6 ms behind the first
+		stop(2)
+		<-first
+		time.Sleep(200 * time.Millisecond)
 	case "rowpanic":
 		// a user function panics on some rows (v = 3: every fifth row): the rows after them are still processed
 		for i := 1; i <= 20; i++ {
